@@ -86,7 +86,7 @@ var clauseKeywords = map[string]bool{
 }
 
 var headRe = regexp.MustCompile(`^(func|interface|field|extern|spec|lemma|table|axiom|trace)\b`)
-var propsRe = regexp.MustCompile(`\[([A-Z0-9 ,]+)\]`)
+var propsRe = regexp.MustCompile(`\[(C[0-9]{2}(?:[ ,]+C[0-9]{2})*)\]`)
 
 func stripRemark(s string) string {
 	if i := strings.Index(s, " -- "); i >= 0 {
